@@ -57,14 +57,35 @@ def gen_cases(ctx):
             cases.append({"op": "circuit", "mode": "exec", "n": n, "cn": cn, "v": rand_vec(rng, n, "normalised"), "gates": gates,
                           "draws": [float2bits(rng.choice([0.03, 0.2, 0.41, 0.5, 0.66, 0.83, 0.97])) for _ in range(nmeas)],
                           "split": rng.randrange(0, L + 1), "thr": rng.choice([10, 1])})
+    # neighbouring gates of one kind on the same set of qubits, identical and with the roles of the qubits exchanged (cnot(0->1) then
+    # cnot(1->0) is not a cancelling pair): execution is the in-order product, nothing is fused or dropped
+    for kind in ("CNOT", "Toffoli", "H", "X", "Y", "Z", "SWAP", "S", "T", "P", "RX"):
+        for n in (3, 4):
+            for _ in range(2):
+                g = dict(rand_gate(rng, n, [kind]), g="op")
+                if kind not in ("CNOT", "Toffoli") and not g["cs"]:
+                    g["cs"] = [rng.choice([q for q in range(n) if q not in g["ts"]])]
+                qs = list(g["ts"]) + list(g["cs"])
+                perm = qs[1:] + qs[:1] if rng.random() < 0.5 else qs[::-1]
+                g2 = dict(g, ts=perm[:len(g["ts"])], cs=perm[len(g["ts"]):])
+                for pair in ([g, g2], [g, dict(g)], [g2, g, g2]):
+                    gates = [rand_any_gate(rng, n, us) for _ in range(rng.randrange(0, 2))] + pair + [rand_any_gate(rng, n, us) for _ in range(rng.randrange(0, 2))]
+                    gates = [x for x in gates if x["g"] != "meas"]
+                    cases.append({"op": "circuit", "mode": "exec", "n": n, "cn": n, "v": rand_vec(rng, n, "normalised"), "gates": gates, "draws": [],
+                                  "split": rng.randrange(0, len(gates) + 1), "thr": rng.choice([10, 1])})
     # builder histories
     for _ in range(120 if not ctx.thorough() else 600):
         n = rng.randrange(1, 6)
         pool = [rand_any_gate(rng, n, us, bad=(rng.random() < 0.1)) for _ in range(rng.randrange(3, 10))]
+        # measurement gates whose qubit lists are descending / contain a repeat: a builder keeps the list as given
+        pool.append({"g": "meas", "basis": rng.choice(["C", "X", "Y"]), "qs": sorted(rng.sample(range(n), rng.randrange(1, n + 1)), reverse=True)})
+        pool.append({"g": "meas", "basis": rng.choice(["C", "X", "Y"]), "qs": [0, 0] + rng.sample(range(n), rng.randrange(0, n))})
+        meas_ids = [i for i, g in enumerate(pool) if g["g"] == "meas" and g["basis"] != "U"]
         ops = []
         for _ in range(rng.randrange(1, 25 if not ctx.thorough() else 80)):
-            k = rng.choice(["add_gate", "add_gate", "add_gate", "add_gates", "add_sub", "build", "build", "build_final", "build_sub", "try_from"])
-            if k == "add_gate": ops.append({"o": k, "i": rng.randrange(len(pool))})
+            k = rng.choice(["add_gate", "add_gate", "add_gate", "add_gates", "add_sub", "build", "build", "build_final", "build_sub", "try_from", "measure_gate"])
+            if k == "measure_gate": ops.append({"o": k, "i": rng.choice(meas_ids)})
+            elif k == "add_gate": ops.append({"o": k, "i": rng.randrange(len(pool))})
             elif k in ("add_gates", "add_sub", "try_from"):
                 ops.append({"o": k, "is": [rng.randrange(len(pool)) for _ in range(rng.randrange(0, 4))], "sn": n if rng.random() < 0.8 else n + 1})
             else: ops.append({"o": k})
@@ -114,7 +135,7 @@ def hist_terms(c, r):
         ids = lambda v: cqNs([cls[i] for i in v])
         if o["o"] == "try_from":
             extra.append("check_tryfrom %s %s %s %s %s" % (tq, cq, ids(o["is"]), cqN(o["sn"]), himpl(out))); continue
-        if o["o"] == "add_gate": ops.append("BAddGate %s" % cqN(cls[o["i"]]))
+        if o["o"] in ("add_gate", "measure_gate"): ops.append("BAddGate %s" % cqN(cls[o["i"]]))
         elif o["o"] == "add_gates": ops.append("BAddGates %s" % ids(o["is"]))
         elif o["o"] == "add_sub": ops.append("BAddSubroutine (mkSub %s %s)" % (ids(o["is"]), cqN(o["sn"])))
         elif o["o"] == "build": ops.append("BBuild")
@@ -138,12 +159,19 @@ def run_cases(ctx, cases):
         if c["mode"] == "exec":
             terms.append(exec_term(c, r)); idx.append((i, "e"))
         elif c["mode"] == "history":
+            if foreign_gate(r): continue          # judged directly: a gate that is none of the gates handed in
             for j, t in enumerate(hist_terms(c, r)):
                 terms.append(t); idx.append((i, "h%d" % j))
     outs = coq_eval(ctx, IMPORTS, terms)
     codes = {}
     for k, o in zip(idx, outs): codes[k] = parseN(o)
     return results, codes
+
+def foreign_gate(r):
+    """a built circuit / subroutine / the pending list holds a gate that equals none of the pool gates (class -1)"""
+    ids = list(r.get("pending", []))
+    for o in r.get("outs", []): ids += o.get("ids", []) if isinstance(o, dict) else []
+    return any(i < 0 for i in ids) or any(i < 0 for i in r.get("classes", []))
 
 def judge(ctx, cases, results, codes):
     stats = {"exec_class": 0, "exec_close": 0, "trace_class": 0, "trace_close": 0, "trace_shape": 0, "split_ok": 0, "history_ok": 0, "tryfrom_ok": 0,
@@ -152,6 +180,15 @@ def judge(ctx, cases, results, codes):
         b = brief(c)
         if r.get("r") in ("panic", "crash"):
             ctx.violations.append(("panic: %s" % r.get("msg", r.get("stderr", "")), {"case": c, "brief": b})); continue
+        if c["mode"] == "history" and r.get("r") == "ok":
+            # the register of everything built from a builder is the builder's own (a subroutine converted directly keeps its own)
+            wrong = [(k, o["o"], out.get("n")) for k, (o, out) in enumerate(zip(c["ops"], r["outs"]))
+                     if isinstance(out, dict) and "n" in out and out.get("ok", True) and out["n"] != (o["sn"] if o["o"] == "try_from" else c["n"])]
+            if wrong:
+                ctx.violations.append(("operation %d (%s) of a history on a %d-qubit builder returned a circuit / subroutine on %s qubits" % (wrong[0][0], wrong[0][1], c["n"], wrong[0][2]),
+                                       {"case": c, "brief": b})); continue
+        if c["mode"] in ("history", "circ_history") and r.get("r") == "ok" and foreign_gate(r):
+            ctx.violations.append(("a builder / circuit holds a gate that is none of the gates added to it (a gate was altered on the way in)", {"case": c, "brief": b})); continue
         if c["mode"] == "exec":
             in_range = all(q < c["cn"] for g in c["gates"] for q in sum(targets_of(g), []))
             if r.get("r") == "build_err":
